@@ -232,6 +232,8 @@ class X:
         return X(STATE.alg.pow(val(b), a.v))
 
     def _cmp(a, b, op):
+        if isinstance(b, _np.ndarray):
+            return X._arr(b, lambda c: STATE.alg.cmp(op, a.v, val(c)))
         return STATE.alg.cmp(op, a.v, val(b))
 
     def __lt__(a, b): return a._cmp(b, "lt")
@@ -462,6 +464,8 @@ class _NPX(_types.ModuleType):
         return self.eye(n, dtype=dtype)
 
     def array(self, x, dtype=None, **k):
+        if getattr(x, "_pyvc_symbolic", False):
+            return x
         if _symbolic(x) or (STATE.exact and dtype is not None and _inexact(dtype)) \
                 or (STATE.exact and dtype is None and _has_float(x)):
             k.pop("copy", None)
@@ -470,7 +474,7 @@ class _NPX(_types.ModuleType):
         return _np.array(x, dtype=_real_dtype(dtype), **k)
 
     def asarray(self, x, dtype=None, **k):
-        if _is_obj(x):
+        if _is_obj(x) or getattr(x, "_pyvc_symbolic", False):
             return x
         if _symbolic(x) or (STATE.exact and dtype is not None and _inexact(dtype)):
             return _np.array(x, dtype=object)
@@ -597,7 +601,36 @@ class _NPX(_types.ModuleType):
             return a if X(val(a)) <= b else b
         return _np.minimum(a, b)
 
+    def clip(self, a, lo, hi, **k):
+        if _symbolic(a, lo, hi):
+            def one(c):
+                c = X(val(c))
+                if c < lo:
+                    return X(val(lo))
+                if c > hi:
+                    return X(val(hi))
+                return c
+            return _map(a, one)
+        return _np.clip(a, lo, hi, **k)
+
+    def any(self, a, *aa, **k):
+        if isinstance(a, (bool, _np.bool_)):
+            return bool(a)
+        return _np.any(a, *aa, **k)
+
+    def all(self, a, *aa, **k):
+        if isinstance(a, (bool, _np.bool_)):
+            return bool(a)
+        return _np.all(a, *aa, **k)
+
+    def ndim(self, a):
+        if isinstance(a, X):
+            return 0
+        return _np.ndim(a)
+
     def sign(self, x):
+        if isinstance(x, _np.ndarray) and x.dtype == object:
+            return _map(x, lambda c: self.sign(c))
         if _symbolic(x):
             xx = X(val(x))
             if xx > 0:
